@@ -69,9 +69,12 @@ func (w *Waiter) Next() GenericDataType {
 	defer w.mu.Unlock()
 
 	for {
+		// Read the cancellation state before looking for data: everything
+		// that was Set before the context was cancelled is then still drained.
+		done := w.isDone()
 		data, ok := w.Diode.TryNext()
 		if !ok {
-			if w.isDone() {
+			if done {
 				VerifAt("waiter.next.done", 0)
 				return nil
 			}
